@@ -27,6 +27,10 @@ class VfModelError(Exception):
 
 
 def _exc(name):
+    if name == "EmptyMessage":  # a bare `raise SomeError` / `assert`: str(e) == ""
+        return lambda msg: VfModelError()
+    if name == "MultiLine":
+        return lambda msg: ValueError(msg + "\nsecond line of the message: details")
     if name == "ModelError":
         from glotaran.model import ModelError  # noqa: PLC0415
 
@@ -46,7 +50,8 @@ def _with_msg(e, msg):
 # quick uses the first two (an everyday builtin and a class deriving from Exception directly), thorough all
 EXC = {"ValueError": ValueError, "VfModelError": VfModelError, "ZeroDivisionError": ZeroDivisionError,
        "RuntimeError": RuntimeError, "FloatingPointError": FloatingPointError, "KeyError": KeyError,
-       "TypeError": TypeError, "IndexError": IndexError, "ModelError": None, "ParameterNotFoundException": None}  # fmt: skip
+       "TypeError": TypeError, "IndexError": IndexError, "ModelError": None, "ParameterNotFoundException": None,
+       "EmptyMessage": None, "MultiLine": None}  # fmt: skip
 QUICK_EXC = ["ValueError", "VfModelError"]
 
 SCHEMES = {
@@ -77,6 +82,7 @@ class Plan:
         self.n = 0
         self.ok_vectors = []
         self.raised = []
+        self.raised_at = {}
         self.n_at_create_result = None
 
 
@@ -95,7 +101,30 @@ def run_with_faults(case, faults):
         if f and f[0] == "raise":
             e = _exc(f[1])(f"injected-fault-{plan.n}")
             plan.raised.append(e)
+            plan.raised_at[id(e)] = plan.n
             raise e
+        if f and f[0] == "raise_mid":
+            # the model raises in the middle of the evaluation: the first matrix of the group has been calculated already
+            e = VfModelError(f"injected-fault-{plan.n}")
+            calls = [0]
+
+            def hook(mc, dm):
+                calls[0] += 1
+                if calls[0] == 2:
+                    plan.raised.append(e)
+                    plan.raised_at[id(e)] = plan.n
+                    raise e
+
+            S._FAULT_HOOK[0] = hook
+            try:
+                orig(self, parameters)
+            finally:
+                S._FAULT_HOOK[0] = None
+            if calls[0] < 2:  # a group with a single matrix: the fault comes at the end of the evaluation instead
+                plan.raised.append(e)
+                plan.raised_at[id(e)] = plan.n
+                raise e
+            return
         if f and f[0] == "nan":
             S._POISON[0] = True
         try:
@@ -173,7 +202,7 @@ def judge(case, faults, out, n_optimizer_evaluations):
         if exc is not None or res is None or not res.success:
             vs.append(V("fault-free-run-failed", exc=repr(exc)[:200], **ctx))
         return vs
-    only_raise = kinds == {"raise"}
+    only_raise = kinds <= {"raise", "raise_mid"}
     if case["raise_exception"] and only_raise:
         first = plan.raised[0] if plan.raised else None
         if exc is None:
@@ -190,8 +219,7 @@ def judge(case, faults, out, n_optimizer_evaluations):
             return vs  # non-finite faults with raise_exception=True may surface as scipy/numpy errors
         # where was the evaluation that raised called from - in *this* run (a first fault may end the optimiser early)
         if any(exc is r for r in plan.raised) and plan.n_at_create_result is not None:
-            k_exc = int(str(exc.args[0]).rsplit("-", 1)[-1]) if exc.args else 0
-            in_cr = k_exc > plan.n_at_create_result
+            in_cr = plan.raised_at.get(id(exc), 0) > plan.n_at_create_result
         else:
             in_cr = bool(plan.n_at_create_result is not None and "nan" in kinds)
         if any(exc is r for r in plan.raised):
@@ -206,8 +234,9 @@ def judge(case, faults, out, n_optimizer_evaluations):
     if only_raise:
         if res.success:
             vs.append(V("success-reported-although-an-evaluation-raised", **ctx))
-        if "injected-fault" not in str(res.termination_reason):
-            vs.append(V("termination-reason-does-not-carry-the-error", reason=str(res.termination_reason)[:200], **ctx))
+        if not any(str(r) in str(res.termination_reason) for r in plan.raised):
+            vs.append(V("termination-reason-does-not-carry-the-error", reason=str(res.termination_reason)[:200],
+                        error=str(plan.raised[0])[:200] if plan.raised else None, **ctx))  # fmt: skip
         if not plan.ok_vectors:
             vs.append(V("result-returned-although-no-evaluation-succeeded", **ctx))
     got = tuple(float(p.value) for p in res.optimized_parameters.all())
@@ -333,6 +362,11 @@ def case_faults(case):
     for k in range(1, N + 1):
         for kind in kinds:
             deviations.append({str(k): kind})
+        if case.get("all_exc") or k <= 4:  # a fault in the middle of an evaluation; messages that are empty or span lines
+            deviations.append({str(k): ["raise_mid"]})
+            if not case.get("all_exc"):
+                deviations.append({str(k): ["raise", "EmptyMessage"]})
+                deviations.append({str(k): ["raise", "MultiLine"]})
     if case.get("pairs"):
         for k1, k2 in itertools.combinations(range(1, N + 1), 2):
             deviations.append({str(k1): ["raise", "ValueError"], str(k2): ["raise", "RuntimeError"]})
